@@ -500,8 +500,20 @@ fn parse_inner<J: Jet>(
                 }
             };
 
-            let name = Option::<Arc<str>>::clone(&data.node.name)
-                .unwrap_or_else(|| Arc::from(namer.assign_name(inner.as_ref()).as_str()));
+            let name = Option::<Arc<str>>::clone(&data.node.name).unwrap_or_else(|| {
+                // Generated names must not clash with names chosen by the user.
+                // (Typed holes keep their own name, so there is nothing to retry.)
+                let mut generated = namer.assign_name(inner.as_ref());
+                while resolved_map.contains_key(generated.as_str())
+                    && !matches!(
+                        inner,
+                        node::Inner::Witness(WitnessOrHole::TypedHole(..))
+                    )
+                {
+                    generated = namer.assign_name(inner.as_ref());
+                }
+                Arc::from(generated.as_str())
+            });
 
             let node = NamedConstructNode::new(
                 &inference_context,
